@@ -67,7 +67,7 @@ def tree_key(repo):
                 h.update(hashlib.sha256(fh.read()).digest())
     h.update(os.path.abspath(repo).encode())
     # extraction logic version: bump when core.py changes what it stores
-    h.update(b'core-v10')
+    h.update(b'core-v11')
     return h.hexdigest()[:24]
 
 
@@ -94,7 +94,7 @@ ONLY_UNITS = {
 # extra units not in the host build that exist only for a target
 EXTRA_UNITS = {
     'K2': ['src/jit_compiler_a64.cpp'],
-    'K3': ['src/jit_compiler_rv64.cpp'],
+    'K3': ['src/jit_compiler_rv64.cpp', 'src/jit_compiler_rv64_vector.cpp'],
 }
 
 
